@@ -292,6 +292,44 @@ def job(chk, idxs):
                         if got != want:
                             chk.violation('%s:relayout:lines-do-not-follow-tokens' % d, '%s: an equal-length re-layout analysed right after the original: flagged tokens start on lines %r, reported lines %r (`%s`)' % (d, want, got, label),
                                           {'job': 'analyze sequence', 'detector': d, 'source': text, 'other_source': tw, 'expected': want, 'observed': got})
+        # the same through the directory analysis (what the binary does): the original and a re-layout that also has blank lines in FRONT of the
+        # first token, as two files of one directory; per detector the lines reported for each file are the lines of analyze_for_* on its bytes
+        if i % 4 == chk.seed % 4 and layouts:
+            import os, shutil, tempfile
+            from .. import reportlib as rl
+            from ..native import unhex as _unhex
+            root = tempfile.mkdtemp(prefix='c17dir-', dir=chk.native.dir)
+            try:
+                moved = '\n\n\r\n \t\n' + layouts[0][1]
+                for nm, t in (('Orig.sol', text), ('Moved.sol', moved)):
+                    with open(os.path.join(root, nm), 'w', newline='') as fh:
+                        fh.write(t)
+                p_m = chk.native.file(moved)
+                for cat in ('opt', 'vul', 'qa'):
+                    table = rl.CATS[cat]['table']
+                    cdets = [n_ for _, n_ in table if n_ in oracle.MIR_NAME]
+                    res_ = chk.native.run([['analyze_dir', cat, root, ','.join(cdets)]] + [['analyze', cat, d_, p_m] for d_ in cdets])
+                    chk.validated += 1
+                    if res_[0][0] != 'OK':
+                        continue
+                    name_of = dict(table)
+                    got_by = {}
+                    for item in (res_[0][1].split(';') if res_[0][1] else []):
+                        pat, hx, ls = item.split('|')
+                        got_by[(_unhex(hx), name_of.get(pat, pat))] = [int(x) for x in ls.split(',') if x]
+                    for d_, r_ in zip(cdets, res_[1:]):
+                        if r_[0] != 'OK':
+                            continue
+                        want = [int(x) for x in r_[1].split(',') if x]
+                        got = got_by.get(('Moved.sol', d_), [])
+                        if got != want:
+                            chk.violation('%s:relayout:directory-lines-do-not-follow-tokens' % d_, '%s through analyze_dir: a re-layout with blank lines in front of the first token is reported on lines %r, '
+                                          'its flagged tokens begin on lines %r (`%s`)' % (d_, got, want, label),
+                                          {'job': 'analyze_dir_layout', 'category': cat, 'file_name': 'Moved.sol', 'detector': d_, 'source': moved, 'expected': want, 'observed': got})
+                        else:
+                            chk.ok()
+            finally:
+                shutil.rmtree(root, ignore_errors=True)
         if i % 25 == 0:
             chk.sample({'file': label, 'relayout (first 300 chars)': layouts[-1][1][:300] if layouts else None})
 
